@@ -90,3 +90,61 @@ extern "C" void h_start_mt() {
     vf_choice_end();
     vf_witness();
 }
+
+// ---- co_await of an async coroutine against the thread that completes it.
+// A parent coroutine awaits a child (co_await child(...)); the child suspends on a future whose promise another thread resolves. The complete resolve
+// operation of that thread is injected in front of the k-th atomic instruction executed from the start of the parent (vf_ainject_arm), k = 1..K - in
+// particular inside the co_await protocol of async<T> (await_ready / await_suspend wiring the caller as the child's only awaiter) - or happens afterwards.
+// Oracle: the child's body runs once, its value or exception reaches exactly the awaiting parent, the parent continues exactly once, every argument and
+// local of both frames is destroyed exactly once, allocation balance.
+namespace {
+struct ACtx {
+    int child_runs = 0, child_done = 0, parent_runs = 0, parent_done = 0;
+    int obs_kind = 0, obs = 0;
+    vf_probe_counts pc_arg, pc_local, pc_parent;
+    future<int> gate; promise<int> gate_p; int gval = 0; int resolved = 0;
+};
+ACtx *acx;
+async<int> achild(ACtx *c, vf_probe arg, int v, bool throws) {
+    c->child_runs++;
+    vf_probe local(c->pc_local, v);
+    int r = arg.v + local.v + co_await c->gate;
+    c->child_done++;
+    if (throws) throw vf_tag_exc{r};
+    co_return r;
+}
+async<void> aparent(ACtx *c, int v, bool throws) {
+    c->parent_runs++;
+    vf_probe mine(c->pc_parent, 1);
+    try { c->obs = co_await achild(c, vf_probe(c->pc_arg, 1), v, throws); c->obs_kind = 1; }
+    catch (const vf_tag_exc &e) { c->obs = e.tag; c->obs_kind = 2; }
+    c->parent_done++;
+}
+void thread_resolves() { ACtx &c = *acx; c.resolved = 1; (void)c.gate_p(c.gval); }
+}
+
+extern "C" void h_await_mt() {
+    vf_warmup();
+    const int throws = vf_choice(2);
+    const int k = 1 + vf_choice(8);
+    const int v = nondet_int() & 0xffff, g = nondet_int() & 0xffff;
+    long base = vf_live_allocs();
+    {
+        ACtx c; acx = &c;
+        c.gval = g;
+        c.gate_p = c.gate.get_promise();
+        vf_ainject_arm(&thread_resolves, k);
+        aparent(&c, v, throws).detach();
+        if (vf_ainject_pending()) { vf_ainject_disarm(); thread_resolves(); }
+        vf_out(vf_ainject_events());
+        VF_ASSERT(c.child_runs == 1 && c.child_done == 1, "C04 the body of a started coroutine runs exactly once");
+        VF_ASSERT(c.parent_done == 1, "C04 the awaiting coroutine continues exactly once when the awaited coroutine has finished (its result reaches the party it was bound to)");
+        VF_ASSERT(c.obs_kind == (throws ? 2 : 1) && c.obs == 1 + v + g, "C04 the value or exception of the awaited coroutine reaches exactly the awaiting coroutine");
+        VF_ASSERT(c.pc_arg.constructed == c.pc_arg.destroyed && c.pc_local.constructed == c.pc_local.destroyed && c.pc_parent.constructed == c.pc_parent.destroyed,
+                  "C04 arguments and locals are destroyed exactly once");
+        vf_out(c.obs & 0xffff);
+    }
+    VF_ASSERT(vf_live_allocs() == base, "C04 the frames are released exactly once (allocation balance)");
+    vf_choice_end();
+    vf_witness();
+}
